@@ -28,6 +28,8 @@ from pydsol.core.utils import DSOLError
 CONCS = ("float", "int", "dur", "mixed")
 CONCS_OFF_BASE = ("float", "int", "dur", "mixed", "float+6", "int-3", "dur+2", "int+7", "mixed-1", "float+4000000000", "dur+4000000000")
 CONCS_OFF = CONCS_OFF_BASE + ("durh", "int+9007199254740993")
+CONCS_STATS = CONCS_OFF_BASE + ("durh",)      # for models whose statistics integrate over time in floating point: an int clock beyond 2^53 is
+                                              # outside what a float-valued time integral can represent (a numeric matter, not a lifecycle one)
 # "durh": a Duration clock whose replication start carries the unit 'h' (the clock inherits it) while every delay is a multiple of 63 s:
 #   clock + delay must be the exact SI sum, not a value rebuilt through the display unit (63k / 3600 * 3600 is 1 ulp off for k = 1, 2, 4, 8, 16);
 # "int+9007199254740993": an int clock beyond 2^53 (nanoseconds since an epoch, say), where adjacent times coincide as floats
